@@ -18,19 +18,19 @@ CHECKS.update({
     "C02": dict(
         level="model_checking",
         technique="explicit-state BFS over public-API operation histories executed on the real Presentation (replay mode, canonical-state dedup); every state saved and judged by an independent OPC reader and by semantic comparison with the re-opened file",
-        text="All histories over a 38-operation alphabet to depth 2 (thorough 3) from 4 initial decks (default, slide parts out of presentation order, non-contiguous slide names, corpus deck) plus a cache-sensitive 11-operation sub-alphabet to depth 3 (thorough 5); in every state the saved zip satisfies the statement's closure rules, content types equal created/loaded types, and the re-opened deck shows what memory showed. Histories (save -> rename -> save) are exactly what unit tests never form.",
+        text="All histories over a 46-operation alphabet (every shape kind, pictures, movies incl. an upper-case media name, charts, replace_data, OLE, notes, hyperlinks set/changed/cleared incl. shared relationships, slide jumps, layout removal incl. through another master's collection, core properties, rejected calls, save, save+re-open) to depth 2 on five generated decks (default, rich, slide names out of order / non-contiguous / 1-5-3) and depth 1 on four corpus decks (handout master, two slide masters, no core properties) (thorough: depth 3 / 2), a cache-sensitive 18-operation sub-alphabet to depth 3 (thorough 4) and a re-used-stream family (one file-like object for every save of a history that grows and shrinks, depth 4 | 5); in every state the saved zip satisfies the statement's closure rules, content types equal created/loaded types, and the re-opened deck shows what memory showed.",
         note="Trusted: mc/oracles/opc_ref.py (zipfile + bare lxml), lxml c14n, the semantic snapshot in mc/drivers/state.py (public read API). Canonical state = saved-package digest + populated lazy caches read reflectively; missing hidden state can only merge states.",
         design="4/C02"),
     "C11": dict(
         level="exploration",
         technique="bounded-exhaustive enumeration of every attribute declaration and simple-type class x boundary/neighbour/wrong-type values, executed on the real setters/getters, lexical validity decided by libxml2 against the ISO schemas' simple types",
-        text="159 attribute declarations, 52 simple-type classes and 16 XML enumerations found by reflection, each x every schema bound and enforced bound +-R, rounding-threshold neighbours, int/float/bool/str/None/bytes/list values and every lexical alternative of the schema type for reading; exhaustive over that value alphabet (evaluations asserted equal to the closed-form size).",
+        text="159 attribute declarations, 52 simple-type classes and 16 XML enumerations found by reflection, each x every schema bound and enforced bound +-R, rounding-threshold neighbours, int/float/bool/str/None/bytes/list/int-subclass values and every lexical alternative of the schema type for reading (lexical forms the schema makes equivalent must read equal); value alphabets walked in both orders in separate forked children (verdict maps compared), every evaluation under a CPU watchdog (a non-terminating validation is reported, not waited for); a rejected value must leave the attribute unchanged and a value inside the class's own range must not be rejected; exhaustive over that value alphabet (evaluations asserted equal to the closed-form size).",
         note="Trusted: libxml2 XSD validation of generated probe elements per simple type; mapping (tag, attribute) -> schema type from mc/oracles/xsd.Index (weak rule on overloaded tags: valid for at least one candidate type). Non-finite floats and whitespace-padded forms excluded.",
         design="4/C11"),
     "C20": dict(
         level="exploration",
         technique="exhaustive enumeration of every member of every XML-mapped enumeration, every preset auto-shape row and every writable chart type, compared with the schema enumerations and presetShapeDefinitions.xml shipped in the repository",
-        text="575 enumeration members (run time and module AST), 182 auto-shape rows against the standard's preset definitions (with the stated erratum tolerance), 182 add_shape read-backs (live and after re-open), 29 writable chart types x 9 data sizes read back; the space is finite and enumerated completely.",
+        text="575 enumeration members (run time and module AST: aliases that would fold a token away are seen), 182 auto-shape rows against the standard's preset definitions (with the stated erratum tolerance), 182 add_shape read-backs (live and after re-open), adjustment histories for every adjustable preset (first shape set / loaded with explicit guides, fresh shapes afterwards read the defaults), 29 writable chart types x 9 data sizes read back, and every chart of the PowerPoint-authored chart-type deck read against the types the repository's acceptance specification documents; the space is finite and enumerated completely.",
         note="Trusted: spec/ XSDs and presetShapeDefinitions.xml as shipped; the enum -> ST_* table in mc/props/c20.py is cross-checked against the attribute declarations that use each enum.",
         design="4/C20"),
 })
@@ -39,7 +39,7 @@ CHECKS.update({
     "C05": dict(
         level="exploration",
         technique="bounded-exhaustive enumeration of a sink catalogue x metacharacter string set executed through the public API, differential tag-skeleton oracle + reader round trip + save/re-open",
-        text="124 (thorough 346) string-accepting entry points x 134 strings (all strings of length <= 2 over the XML metacharacters plus curated entity/CDATA/format-directive fragments): each call must not raise, the saved parts must re-parse with the same element skeleton as for a benign string, and the reader must return the string before and after save/re-open. Exhaustive over catalogue x string set (size asserted).",
+        text="139 (thorough ~360) string-accepting entry points (names, file names, hyperlink addresses, chart series / category / number-format fields per chart family for add_chart and replace_data, font names, prog-ids, mime type, core properties, renamed placeholders, plus TWIN sinks: two near-identical strings - case-swapped or with a trailing blank - stored side by side in one part) x ~145 strings (all strings of length <= 2 over the XML metacharacters plus curated entity / CDATA / format-directive / enum-token-like / 255-character / escape-look-alike strings): each call must not raise, the saved parts must re-parse with the same element skeleton as for a benign string, and the public reader must return the string before and after save/re-open. Exhaustive over catalogue x string set.",
         note="Trusted: bare lxml parsing of saved members; the sink catalogue in mc/props/c05.py (hover hyperlinks and OLE icon names are not reachable as XML sinks through the public API). Strings outside the XML Char production are out of the claim.",
         design="4/C05"),
     "C06": dict(
@@ -57,7 +57,7 @@ CHECKS.update({
     "C18": dict(
         level="exploration",
         technique="bounded-exhaustive enumeration of assignments, assignment pairs, all years 1..9999 and every W3CDTF granularity x offset, executed on the real core-properties part; independent W3CDTF parser and libxml2 validation against opc-coreProperties.xsd",
-        text="15 properties x string classes and boundary lengths, 19 datetimes, revision values, all ordered pairs over a reduced value set, every year 1..9999 for the three date properties, 6 W3CDTF granularities x 115 time-zone designators read from injected XML, packages with and without a core-properties part, two save/re-open cycles each; generator sizes asserted against closed forms.",
+        text="15 properties x string classes and boundary lengths, 19 datetimes (naive and aware), revision values, all ordered pairs over a reduced value set, every year 1..9999 for the three date properties, 6 W3CDTF granularities x 115 time-zone designators read from injected XML, packages with and without a core-properties part, every corpus deck, two save/re-open cycles each, and two packages handled in one process (4 bases x 4 bases x overlap/sequential: a fresh default part reads what one reads in a pristine process, no cross-package interference); 37k evaluations, generator sizes asserted against closed forms.",
         note="Trusted: the three stub Dublin-Core/xml schemas in /verif/schemas (the real ones are imported by HTTP URL and cannot be fetched), libxml2, mc/oracles/w3cdtf_ref.py.",
         design="4/C18"),
 })
@@ -72,13 +72,13 @@ CHECKS.update({
     "C04": dict(
         level="exploration",
         technique="bounded-exhaustive enumeration of all strings over a 14-character alphabet (length <= 3 / <= 4) x 4 assignment levels x 6 prior body states, plus all ordered assignment pairs, executed on real text bodies against a reference model of the documented translations",
-        text="Every string over {a, space, LF, VT, TAB, CR, NUL, BEL, US, <, &, astral, _, x} up to the length bound, assigned at frame / cell / paragraph / run level onto six prior bodies (fields, leading breaks, properties), and all ordered pairs of assignments; getter at every level, a:p / a:br counts, a:pPr preservation, part-level re-parse with the library's own parser and two real save/re-open cycles. Sizes asserted against closed forms.",
+        text="Every string over {a, space, LF, VT, TAB, CR, NUL, BEL, US, <, &, astral, _, x} up to length 3 (thorough 4) plus 25 fixed longer strings (runs of 12 and 40 breaks, C1 controls, DEL, surrogate-adjacent code points, _xHHHH_ look-alikes of non-control code points), assigned at frame / cell / paragraph / run / shape level onto six prior bodies (fields, leading breaks, properties), and all ordered pairs of assignments over the 24 level pairs; getter at every level, a:p / a:br counts, a:pPr preservation, part-level re-parse and two real save/re-open cycles. Sizes asserted against closed forms.",
         note="Trusted: mc/oracles/text_ref.py (written from the statement), bare lxml reads of the body. Escape look-alike literals (_x000A_) are only judged for stability (statement silent).",
         design="4/C04"),
     "C12": dict(
         level="model_checking",
         technique="explicit-state BFS over histories of reflective read traversals (4 entry points x 2 accessor orders) and saves on every corpus deck, executed on the real object model; canonical saved package compared with the package saved straight after opening",
-        text="On all 68 corpus decks and 3 generated decks: every public read property and collection protocol of every reachable proxy object is called (tens of thousands of accessor calls per run), in forward and reverse order, from four entry points, interleaved with saves, to depth 1 on all decks and depth 2 on 8 feature-rich decks (thorough: 2 and 3). A differing state is attributed to the accessor that changed its element.",
+        text="On all 68 corpus decks and 5 generated decks (rich, irregular slide names, orphan jump target, notes without master relationship): every public read property and collection protocol of every reachable proxy object is called, in forward and reverse order, from four entry points, interleaved with saves, to depth 1 on all decks and depth 2 on 10 feature-rich decks (thorough: 2 and 3); a differing state (saved package up to empty formatting containers, plus populated caches) is attributed to the accessor that changed its element. Isolation pass: one object (thorough two) of every distinct structural context found in any deck x every read accessor and every look-up method (len, [], in, index, get, get_by_name with own, foreign and absent keys), each alone on a fresh deck, XML and relationships compared (7.3k isolated calls).",
         note="Trusted: mc/oracles/opc_ref.py, lxml c14n; tolerance = empty attribute-less *Pr / a:ln / a:lstStyle / c:marker; accessors exempt only when their docstring documents creation (table EXEMPT in mc/props/c12.py). Known findings: 13 undocumented creating getters.",
         design="4/C12"),
     "C16": dict(
@@ -93,7 +93,7 @@ CHECKS.update({
     "C01": dict(
         level="exploration",
         technique="deviation-bounded exhaustive enumeration of abstract OPC packages (every rooted relationship digraph x style vectors with <= 1 / <= 2 deviations from the default style), written by the harness's own zip writer, round-tripped through the real OpcPackage.open/save and compared by an independent OPC reader",
-        text="All rooted digraphs over k <= 3 parts (cycles, self-loops, shared targets; thorough: k = 4 by isomorphism class) x style vectors (target form, Default/Override/case variants, several parts sharing an extension, id schemes, payload kinds incl. XML with comments/PIs for parsed parts, zip path/stream/directory, orphans, parallel edges, external relationships) within the deviation bound, plus all 68 corpus decks through OpcPackage and Presentation; 78k (thorough 682k) packages, sizes asserted against closed forms; save(open(out)) must be byte-identical per member.",
+        text="All rooted digraphs over k <= 3 parts (cycles, self-loops, shared targets; thorough: k = 4 by isomorphism class) x style vectors (target form, Default/Override/case variants, several parts sharing an extension, id schemes incl. non-rId ids, payload kinds incl. XML with comments/PIs for parsed parts, zip path/stream/directory, orphans, parallel edges, external relationships) over a 7-name alphabet (sibling directories with a common string prefix, upper-case extension, bracketed and percent-escaped name, extension-less) within the deviation bound, successive packages through one re-used input and output path per worker, plus all 68 corpus decks through OpcPackage and Presentation; 85k (thorough ~700k) packages, sizes asserted against closed forms; save(open(out)) must be byte-identical per member.",
         note="Trusted: mc/oracles/opc_ref.py, the generator mc/props/c01_gen.py (opc_ref must agree with the abstract model on every generated input or the run is a harness error). Zip-level variations (member order, stored vs deflated, Zip64) are not modelled.",
         design="4/C01"),
 })
@@ -102,13 +102,13 @@ CHECKS.update({
     "C07": dict(
         level="model_checking",
         technique="exhaustive enumeration of chart types x data shapes and of replace_data histories over representative shapes, executed on the real chart API; strict chart-schema validation by libxml2 (error-set rule), read-API comparison with a reference model of the supplied data, c14n preservation check",
-        text="All 29 writable chart types x category shapes (1..300 leaves, six label kinds, every uniform-depth category forest up to 4 leaves/depth 3 (thorough 6/4)), series counts 0..27 (thorough 0..50), values with holes, XY/bubble length patterns, number formats; every replace_data sequence of length <= 2 (thorough 3) over six representative shapes from each type and from 46 corpus charts: 15k (thorough 150k) paths, each checked transition compared with the model (names, values, categories per level, unique idx/order, surviving formatting).",
+        text="All 29 writable chart types x category shapes (1..300 leaves, eight label kinds incl. 7-17 significant-digit numbers and dates either side of 1900-03-01, every uniform-depth category forest up to 4 leaves/depth 3 (thorough 6/4)), series counts 0..27 (thorough 0..50), values with holes, every tuple of per-series lengths over {0..5} against 3 categories and {0,2,4,6} against a 4-leaf forest, XY/bubble length patterns, number formats; every replace_data sequence of length <= 2 (thorough 3) over six representative shapes plus the ragged and wide-label shapes from each type, from 46 corpus charts and from charts with renumbered c:idx; chart-data objects re-used after mutation: 18k (thorough 150k) paths, each checked transition compared with the model (names, values, categories per level, unique idx/order, surviving formatting).",
         note="Trusted: libxml2 + schemas in /repo/spec, mc/props/c07_shapes.py reference model, bare lxml reads of the chart part. Known findings: negative axis ids / radar c:smooth in the writer templates, pie writes one series, zero-series plots.",
         design="4/C07"),
     "C08": dict(
         level="exploration",
         technique="bounded-exhaustive enumeration of chart data (column-boundary series counts, all 16384 column references, all XY/bubble length triples) executed on the real workbook writer; every c:f range resolved in the embedded .xlsx by an independent SpreadsheetML reader and compared cell by cell with the cached points",
-        text="C07's data shapes plus series counts 25..27 (thorough 701..703) x category depth 1..4, _column_reference for all 16384 columns against an independent base-26 conversion, XY/bubble series lengths {0,1,2,5}^3, formula-like / URL-like / numeric-looking labels, datetime labels, replace_data histories (workbook located in the SAVED package), a date1904 chart: 24k (thorough 118k) evaluations, ~470k cached points compared with their cells.",
+        text="C07's data shapes (incl. ragged series lengths and 7-17 significant-digit numeric labels) plus series counts 25..27 (thorough 701..703) x category depth 1..4, _column_reference for all 16384 columns against an independent base-26 conversion, XY/bubble series lengths {0,1,2,5}^3, formula-like / URL-like / numeric-looking labels, datetime labels, replace_data histories incl. re-used chart-data objects (workbook located in the SAVED package), a date1904 chart: 28k (thorough 133k) evaluations; every c:f range parsed independently, c:ptCount = range size, every cached point equals its cell.",
         note="Trusted: mc/oracles/xlsx_ref.py (zipfile + bare lxml; independent A1 parser). Numbers compared with relative tolerance 1e-14 (XlsxWriter prints 16 significant digits).",
         design="4/C08"),
 })
@@ -117,25 +117,25 @@ CHECKS.update({
     "C09": dict(
         level="model_checking",
         technique="exhaustive enumeration of assignment histories (all single assignments over per-property value alphabets, all ordered pairs on one object; thorough: cross-object pairs and triples) from a declarative catalogue, executed on real objects of a workbench deck and of corpus decks, against a last-assigned-value reference model incl. sibling readings and save/re-open",
-        text="111 of the 139 settable properties found by reflection (26 are decided by C18/C04/C17/C06, 2 listed as uncovered) x boundary / quantum-neighbour / interior / None / wrong-typed values: read-back within the storage quantum through the same and a freshly located proxy, documented None reading, TypeError/ValueError for out-of-domain values, sibling readings outside the independence group unchanged, and the same readings after a per-case save/re-open; 9.5k (thorough 33k) histories, 15k (71k) checked transitions.",
+        text="111 of the 139 settable properties found by reflection (26 are decided by C18/C04/C17/C06, 2 listed as uncovered) x boundary / quantum-neighbour / interior / default / zero / None / wrong-typed values and EVERY member of every enumeration: read-back within the storage quantum through the same and a freshly located proxy, documented None reading, TypeError/ValueError for out-of-domain values, sibling readings outside the independence group unchanged, the same readings after save/re-open; all ordered pairs on one object over a reduced alphabet, cross-point pairs (thorough: cross-object pairs, triples on text objects), three workbench decks (library-written, PowerPoint-form, no slide size) and corpus objects; plus adjustments[i] = v for every preset auto-shape type x index x 4 values (1292 assignments); 20k (thorough ~75k) checked transitions.",
         note="Trusted: the catalogue mc/props/c09_catalog.py, written from the docstrings (weaker reading where a domain is undocumented). A rejected assignment that changes only the XML but no reading is counted, not reported (C03/C11 judge the XML). Truncation inside one quantum is by definition invisible.",
         design="4/C09 + Appendix A"),
     "C14": dict(
         level="model_checking",
         technique="explicit-state BFS (snapshot mode: deepcopy of the a:tbl subtree, dedup on c14n) over merge / split / foreign-merge / size-assignment sequences executed on real tables, against a region-grid reference model",
-        text="Every ordered pair of cells as a merge (all corner orientations, incl. a==b), split of every cell, merges into a second table, row-height / column-width assignments: depth 3 on all table shapes up to 3x3 and depth 2 up to 4x4 (thorough: depth 3 up to 4x4), nine (width, height) divisibility variants, placeholder-inserted tables, and depth 2 from every single-rectangle state of a 6x6 table: 60k states / 458k transitions (thorough 104k / 2.1M), each compared with the model (cell counts, disjoint rectangular regions, origin/spanned flags and spans, refusals leaving c14n unchanged, text in reading order, frame size = sums).",
+        text="Every ordered pair of cells as a merge (all corner orientations, incl. a==b), split of every cell, merges into a second table, row-height / column-width assignments and caller resizes of the graphic frame: depth 3 on all table shapes up to 3x3 and depth 2 up to 4x4 (thorough: depth 3 up to 4x4), nine (width, height) divisibility variants, three text configurations, every assignment of six blank/text paragraph kinds to the cells of tables of up to 4 cells (1806 starting states), placeholder-inserted tables, PowerPoint-form tables (no a:tblPr, endParaRPr-only cells), every corpus table, and depth 2 from every single-rectangle state of a 6x6 table: 52k states / 509k transitions (thorough 185k / 3.1M), each compared with the model (cell counts, disjoint rectangular regions, origin/spanned flags and spans, refusals leaving c14n unchanged, text in reading order, frame size = sums once a size was assigned).",
         note="Trusted: mc/oracles/table_ref.py; bare lxml reads of the table. The statement's random 12x12 sampling is a different technique and is replaced by the exhaustive 6x6 layer.",
         design="4/C14"),
     "C15": dict(
         level="model_checking",
         technique="exhaustive enumeration of generated images (format x size x dpi x file-name/hand-over variant x requested size) through the real add_picture, plus explicit-state BFS (replay mode) over picture / placeholder / movie-poster / OLE-icon / save+re-open histories with a multiset-of-byte-strings reference model, judged on the saved zip by an independent reader",
-        text="629 generated images (PNG/JPEG/GIF/BMP/TIFF, 17 sizes, 9 dpi settings read back from the file by hand-written header parsers) x 6 hand-over variants x 4 size requests = 15k add_picture evaluations (thorough 178k), and all histories to depth 3 (thorough 4) over 13 operations from 3 initial decks: every state has exactly one media part per distinct byte string, byte-exact, with the extension/content type of the real format, native size = pixels x 914400 / dpi (72 when absent or implausible), aspect ratio within 1 EMU.",
+        text="Generated images (PNG/JPEG/GIF/BMP/TIFF, 17 sizes, 11 dpi settings read back by hand-written header parsers) x 6 hand-over variants x 4 size requests; every pixel extent 1..128 (thorough 1..256, and every integer dpi 1..2048) x 18 resolutions x 4 formats with an exact rational size oracle; file-like objects handed over with the cursor at 5 positions x 4 entry points; the own images of every corpus deck that holds images added again (as opened / after re-save, stream / path); and all histories to depth 3 (thorough 4) over 13 operations from 3 initial decks incl. one with ten images: 28k (thorough 345k) evaluations; every state has exactly one media part per distinct byte string, byte-exact, with the extension/content type of the real format, native size = pixels x 914400 / dpi (72 when absent or implausible), aspect ratio within rounding.",
         note="Trusted: mc/oracles/image_ref.py (own PNG pHYs / JFIF / BMP / TIFF readers, cross-checked against Pillow), mc/oracles/opc_ref.py. The generator's request is the truth about the format (not Pillow's detection).",
         design="4/C15"),
     "C17": dict(
         level="model_checking",
         technique="explicit-state search on the real shapes: full closure of the connector end-point state graph; depth-bounded exhaustive addition histories into nested groups; exhaustive freeform pen enumeration; each against a geometric reference model",
-        text="Connector: all 256 creations x 2 scales and the complete reachable graph under 20 end-point assignments (1800 states, 36k transitions, no depth bound). Groups: 9 member kinds x 3x3 positions x 2 sizes into any group of the tree, all histories to length 2 and restricted prefixes to length 3 (thorough 4), nesting to depth 4/5, every group's off/ext/chOff/chExt = bounding box of members after every addition. Freeform: 223k (thorough 3.3M) pens (negative/fractional/repeated vertices, second contour, 4 scales, 2 origins): position/size = scaled bounding box + origin within 1 EMU, all points inside the path extents.",
+        text="Connector: all 256 creations x 2 scales and the complete reachable graph under 20 end-point assignments (1800 states, 36k transitions, no depth bound). Groups: 9 member kinds (incl. zero-width / zero-height / zero-area members) x 3x3 positions x 2 sizes into any group of the tree, all histories to length 2 and restricted prefixes (incl. a caller resize of the group) to length 3 (thorough 4), nesting to depth 4/5, every group's off/ext/chOff/chExt = bounding box of members after every addition. Freeform: 223k (thorough 3.3M) pens (negative/fractional/repeated vertices, second contour, 4 scales, 2 origins, builder re-used after conversion): position/size = scaled bounding box + origin within 1 EMU, all points inside the path extents.",
         note="Trusted: the geometric model in mc/props/c17.py; bare lxml reads of a:xfrm / a:path. The group alphabet is full only for the last operation of histories longer than 2 (stated in evidence).",
         design="4/C17"),
 })
@@ -144,7 +144,7 @@ CHECKS.update({
     "C13": dict(
         level="model_checking",
         technique="exhaustive enumeration of every corpus layout and of generated layout / notes-master placeholder populations, plus explicit-state BFS (replay mode) over add_slide / move / text / notes / save histories, executed on the real API against an expected-placeholder model computed from the layout XML by a bare-lxml reader",
-        text="All 178 layouts of the 68 corpus decks; generated layouts with every single placeholder over 17 types x orientation x idx x xfrm x sz x 2 masters (2176), all pairs over a reduced product (18k; thorough 92k pairs + 59k triples); notes slides on every deck and 1088 generated notes masters; BFS to depth 3 (thorough 4) over 13 operations from 3 decks. Each new slide mirrors type/idx/orient/sz one-for-one in order, with distinct names, layout (else master) geometry, is last, related to its layout, leaves other slides unchanged, in memory and after save/re-open.",
+        text="All 178 layouts of the 68 corpus decks; generated layouts with every single placeholder over 17 types x orientation x idx x xfrm (absent, complete, zero offsets) x sz x 2 masters, all pairs over a reduced product (thorough adds the full idx^2 and triples); notes slides on every deck, generated notes masters (singles, and ordered pairs over 6 types x 2 | 4 idx values x xfrm); BFS to depth 3 (thorough 4) over 13 operations from 3 decks. Each new slide mirrors type/idx/orient/sz one-for-one in order, with distinct names, layout (else master) geometry, is last, related to its layout, leaves other slides unchanged, in memory and after save/re-open.",
         note="Trusted: mc/props/c13_lib.py (bare-lxml placeholder reader and inheritance rule of the standard), generated decks of mc/props/c13_gen.py (harness-side zip rewriting). With duplicate idx values in one layout any layout placeholder sharing the idx is accepted as counterpart (weaker reading).",
         design="4/C13"),
 })
